@@ -64,7 +64,7 @@ fn serve(base: &c09::Case, transport: Transport) -> Result<(String, Stop), Fail>
     let hl = |e: std::io::Error| Fail::new("harness-listen", e.to_string());
     match transport {
         Transport::Ws => block_on(async {
-            let l = WebSocketServer::listen("127.0.0.1:0").await.map_err(hl)?;
+            let l = WebSocketServer::listen(crate::util::lo0().as_str()).await.map_err(hl)?;
             let addr = l.local_addr().unwrap();
             let (tx, rx) = tokio::sync::oneshot::channel::<()>();
             tokio::spawn(async move {
@@ -78,7 +78,7 @@ fn serve(base: &c09::Case, transport: Transport) -> Result<(String, Stop), Fail>
             Ok((format!("ws://{addr}/repe"), Stop::Ws(Some(tx))))
         }),
         Transport::AsyncTcp => block_on(async {
-            let l = AsyncServer::listen("127.0.0.1:0").await.map_err(hl)?;
+            let l = AsyncServer::listen(crate::util::lo0().as_str()).await.map_err(hl)?;
             let addr = l.local_addr().unwrap();
             let h = tokio::spawn(async move {
                 let _ = AsyncServer::new(router).serve(l).await;
@@ -87,7 +87,7 @@ fn serve(base: &c09::Case, transport: Transport) -> Result<(String, Stop), Fail>
         }),
         Transport::Sync => {
             let server = Server::new(router);
-            let l = server.listen("127.0.0.1:0").map_err(hl)?;
+            let l = server.listen(crate::util::lo0().as_str()).map_err(hl)?;
             let keep = l.try_clone().map_err(hl)?;
             let addr = l.local_addr().unwrap();
             std::thread::spawn(move || {
